@@ -1,4 +1,4 @@
-CONSTANTS NStates = {1, 2, 3, 7}  Shapes = {0, 1, 2, 3, 4, 5}  Salts = {0, 1, 2}  Stages = {0, 1, 2}  WinSets = {1, 2, 3, 4, 5, 6, 7}
+CONSTANTS NStates = {1, 2, 3, 7}  Shapes = {0, 1, 2, 3, 4, 5}  Salts = {0, 1, 2}  Stages = {0, 1, 2}  WinSets = {1, 2, 3, 4, 5, 6, 7, 8}
 SPECIFICATION Spec
 INVARIANT Emit
 CHECK_DEADLOCK FALSE
